@@ -25,7 +25,7 @@
 #include "getline_spec.h"
 #include "mkfs.h"
 
-#define PRE "slink x 0777 0 0 "
+#define PRE "l x 7 0 0 "  /* five short leading fields; only the last field matters here */
 #define LINEMAX (sizeof(PRE) + 2 * LEN + 3 + 2)
 
 static unsigned char g_text[LINEMAX];
